@@ -33,8 +33,10 @@ PROPS = {
                 thorough=dict(batches=400, units=500, wall=1500, legs=[
                     dict(engine="threads", batches=160, units=80)])),
     "C05": dict(engine="ptable", level="exploration",
-                quick=dict(batches=48, units=250, wall=75),
-                thorough=dict(batches=480, units=500, wall=1500)),
+                quick=dict(batches=44, units=250, wall=75, legs=[
+                    dict(engine="threads", batches=8, units=40)]),
+                thorough=dict(batches=440, units=500, wall=1500, legs=[
+                    dict(engine="threads", batches=80, units=80)])),
     "C07": dict(engine="counters", level="exploration",
                 quick=dict(batches=40, units=250, wall=75, legs=[
                     dict(engine="threads", batches=16, units=40)]),
@@ -46,8 +48,10 @@ PROPS = {
                 thorough=dict(batches=400, units=500, wall=1500, legs=[
                     dict(engine="threads", batches=160, units=80)])),
     "C14": dict(engine="fdtable", level="exploration",
-                quick=dict(batches=48, units=8, wall=75),
-                thorough=dict(batches=480, units=16, wall=1500)),
+                quick=dict(batches=44, units=8, wall=75, legs=[
+                    dict(engine="threads", batches=8, units=40)]),
+                thorough=dict(batches=440, units=16, wall=1500, legs=[
+                    dict(engine="threads", batches=80, units=80)])),
     "C15": dict(engine="vtime", level="exploration",
                 quick=dict(batches=48, units=300, wall=75),
                 thorough=dict(batches=480, units=600, wall=1500)),
